@@ -54,8 +54,8 @@ func checkC01(c *Ctx) *report.Result {
 	// memory cell it accesses: those clauses are decided by the rule sets of C02 / C03, evaluated here
 	r.Rule("F-cond", "conditional opcodes test their documented condition (rule L-cond of C02, evaluated on this tree)")
 	r.Rule("F-mem", "data accesses go to the documented address class with the documented byte order and read-modify-write data flow (rules M-sched, M-order, M-rmw of C03, evaluated on this tree)")
-	adopt(r, checkC02(c), map[string]string{"L-cond": "F-cond"}, "an instruction that tests the wrong flag has the wrong effect on PC/SP/memory for some flag state")
-	adopt(r, checkC03(c), map[string]string{"M-sched": "F-mem", "M-order": "F-mem", "M-rmw": "F-mem"}, "an access to the wrong address or with swapped bytes changes the wrong memory cell")
+	adopt(r, c.sibling("C02"), map[string]string{"L-cond": "F-cond"}, "an instruction that tests the wrong flag has the wrong effect on PC/SP/memory for some flag state")
+	adopt(r, c.sibling("C03"), map[string]string{"M-sched": "F-mem", "M-order": "F-mem", "M-rmw": "F-mem"}, "an access to the wrong address or with swapped bytes changes the wrong memory cell")
 	r.Rule("F-carry", "half-carry and carry/borrow at their thresholds (constants and intervals on both sides) for ADD/ADC/SUB/SBC/CP A,r, INC/DEC r, ADD HL,rr, ADD SP,e and LD HL,SP+e")
 	c.checkCarry(r, m)
 	it := c.W.It
